@@ -128,10 +128,8 @@ WORLDS = {
 
 BOUNDS = {
     'quick': {'worlds': {'base2': 3, 'k16': 3, 'kbool': 3, 'kref': 3},
-              'shard_prefix_depth': 2,
               'key_values': ['a', 'A', 'b'], 'unknown_namespace': UNKNOWN_NS},
     'thorough': {'worlds': {'base1': 5, 'base3': 4, 'k16': 4, 'kbool': 4, 'kref': 4},
-                 'shard_prefix_depth': 2,
                  'key_values': ['a', 'A', 'b'], 'unknown_namespace': UNKNOWN_NS},
 }
 MAX_STATES_PER_BFS = 400000        # safety net; hitting it is reported as a cap
@@ -1025,46 +1023,54 @@ def events_of(wid):
 # framework entry points
 
 def _run_prefix(wid, history):
+    """rebuild the state a history leads to (successor computation only, as in plan())"""
     w = fresh(wid)
-    for ev in history:
-        step(w, ev)
+    old = _SCOUT[0]
+    _SCOUT[0] = True
+    try:
+        evs = events_of(wid)
+        for i in history:
+            step(w, evs[i])
+    finally:
+        _SCOUT[0] = old
     return w
 
 
+SHARDS_PER_WORLD = 64
+
+
 def plan(tier, seed):
-    """One 'top' shard per world explores the first `shard_prefix_depth` levels; every distinct
-    state at exactly that depth (found here by the same BFS, shortest history first) becomes a
-    shard that explores the remaining levels below it."""
+    """The parent computes the state graph itself - successor states only (no scribbling, no
+    oracle bookkeeping) - down to level depth-1, i.e. every state that has to be expanded, each
+    with its shortest history (BFS order, ties broken by the order of the alphabet).  A shard is a
+    list of such states; the worker rebuilds each one from its history and executes EVERY event
+    of the alphabet on it with the full oracle.  Every (state, event) pair of the bounded graph is
+    therefore executed and checked exactly once, whatever the number of workers."""
     b = BOUNDS[tier]
-    k = b['shard_prefix_depth']
     shards = []
     for wid, depth in b['worlds'].items():
-        top = min(k, depth)
-        shards.append(dict(check='history', world=wid, prefix=[], depth=top))
-        if depth <= top:
-            continue
-        levels = {}
+        evs = events_of(wid)
+        index = {json.dumps(e, sort_keys=True): i for i, e in enumerate(evs)}
         parents = {}
 
-        def on_transition(parent_key, d, ev, r, child_key, levels=levels, parents=parents):
+        def on_transition(parent_key, d, ev, r, child_key, parents=parents, index=index):
             if child_key not in parents:
-                parents[child_key] = (parent_key, ev)
-                levels[child_key] = d + 1
+                parents[child_key] = (parent_key, index[json.dumps(ev, sort_keys=True)])
 
         w = fresh(wid)
-        k0 = canon(w)
-        parents[k0] = None
-        levels[k0] = 0
-        _SCOUT[0] = True
-        try:
-            explore.bfs(w, enabled, step, canon, max_depth=top, snap=explore.PickleSnap(),
-                        on_transition=on_transition)
-        finally:
-            _SCOUT[0] = False
-        for key in parents:
-            if levels[key] == top and not key[2]:
-                shards.append(dict(check='history', world=wid, depth=depth - top,
-                                   prefix=explore.history_of(parents, key)))
+        parents[canon(w)] = None
+        if depth > 1:
+            _SCOUT[0] = True
+            try:
+                explore.bfs(w, enabled, step, canon, max_depth=depth - 1, snap=explore.PickleSnap(),
+                            on_transition=on_transition, max_states=MAX_STATES_PER_BFS)
+            finally:
+                _SCOUT[0] = False
+        roots = [explore.history_of(parents, key) for key in parents if not key[2]]
+        # deepest (most numerous) states are spread evenly; a shard mixes shallow and deep roots
+        n = max(1, min(SHARDS_PER_WORLD, len(roots)))
+        for j in range(n):
+            shards.append(dict(check='history', world=wid, roots=roots[j::n]))
     return shards
 
 
@@ -1072,32 +1078,32 @@ def run_shard(shard, tier):
     acc = Acc()
     acc.state_hashes = set()
     wid = shard['world']
-    prefix = shard['prefix']
-    w = _run_prefix(wid, prefix)
-    nprefix = len(prefix)
+    evs = events_of(wid)
+    for root in shard['roots']:
+        w = _run_prefix(wid, root)
+        prefix = [evs[i] for i in root]
+        nroot = len(root)
 
-    def on_transition(parent_key, depth, ev, r, child_key):
-        sample = None
-        if not prefix and wid.startswith('base') and depth == 1 and r.outcome in (
-                'modify:OK', 'create:CIM_ERR_ALREADY_EXISTS', 'get:CIM_ERR_NOT_FOUND') and \
-                len(acc.samples) < 2:
-            sample = dict(world=wid, history=prefix, event=ev, outcome=r.outcome,
-                          precond=r.obs['precond'])
-        acc.case((wid, parent_key, json.dumps(ev, sort_keys=True)), nontrivial=r.nontrivial,
-                 outcome=r.outcome, sample=sample)
+        def on_transition(parent_key, depth, ev, r, child_key, prefix=prefix, nroot=nroot):
+            sample = None
+            if wid.startswith('base') and nroot == 1 and r.outcome in (
+                    'modify:OK', 'create:CIM_ERR_ALREADY_EXISTS', 'get:CIM_ERR_NOT_FOUND') and \
+                    len(acc.samples) < 1:
+                sample = dict(world=wid, history=prefix, event=ev, outcome=r.outcome,
+                              precond=r.obs['precond'])
+            acc.case((wid, parent_key, json.dumps(ev, sort_keys=True)), nontrivial=r.nontrivial,
+                     outcome=r.outcome, sample=sample)
 
-    res = explore.bfs(w, enabled, step, canon, max_depth=shard['depth'], snap=explore.PickleSnap(),
-                      on_transition=on_transition, max_states=MAX_STATES_PER_BFS)
-    for v in res.violations.values():
-        acc.violation(v['sig'], dict(check=v['sig']['check'], world=wid, history=prefix + v['history']),
-                      v['expected'], v['observed'])
-        cur = acc.violations[json.dumps(v['sig'], sort_keys=True, ensure_ascii=True)]
-        cur['count'] += v['count'] - 1
-    acc.state_hashes |= {hash((wid, k)) for k in res.state_keys}
-    acc.count('bfs_runs')
-    acc.count('bfs_complete_state_graph' if res.fixpoint else 'bfs_stopped_by_depth_bound')
-    if res.capped:
-        acc.cap(res.capped)
+        res = explore.bfs(w, enabled, step, canon, max_depth=1, snap=explore.PickleSnap(),
+                          on_transition=on_transition)
+        for v in res.violations.values():
+            acc.violation(v['sig'], dict(check=v['sig']['check'], world=wid,
+                                         history=prefix + v['history']),
+                          v['expected'], v['observed'])
+            cur = acc.violations[json.dumps(v['sig'], sort_keys=True, ensure_ascii=True)]
+            cur['count'] += v['count'] - 1
+        acc.state_hashes |= {hash((wid, k)) for k in res.state_keys}
+        acc.count('states_expanded')
     return acc
 
 
